@@ -54,6 +54,11 @@ func genTokSpec(r *Rand, nCast int, label string, rich bool) TokSpec {
 			d.Sub = d.Iss
 			d.UseRoot = r.Chance(0.5)
 		}
+		if rich && r.Chance(0.05) {
+			// a command put together from segments (command.New does not validate) that no parser
+			// accepts: a constructor takes it or refuses it, and what it takes reads back
+			d.Cmd = cmdBytes(Pick(r, []string{"/Crud/read", "/crud\xfe", "/a/B/c", "/store/\u0414"}))
+		}
 		d.Pol = genPolicy(r, a, r.Range(0, 3))
 		if r.Chance(0.5) {
 			d.Exp = ptr(int64(r.Range(10, 1<<30)))
@@ -86,6 +91,9 @@ func genTokSpec(r *Rand, nCast int, label string, rich bool) TokSpec {
 	v := &InvSpec{Label: label, Iss: r.Intn(nCast), Sub: r.Intn(nCast), Aud: -1, Cmd: "/", Args: a}
 	for i := r.Intn(3); i > 0; i-- {
 		v.Cmd = extendCmd(r, v.Cmd)
+	}
+	if rich && r.Chance(0.05) {
+		v.Cmd = cmdBytes(Pick(r, []string{"/Crud/read", "/crud\xfe", "/a/B/c", "/store/\u0414"}))
 	}
 	if r.Chance(0.3) {
 		v.Aud = r.Intn(nCast)
